@@ -2,6 +2,7 @@ package main
 
 import (
 	"context"
+	"fmt"
 
 	"github.com/ajitpratap0/GoSQLX/pkg/gosqlx"
 	"github.com/ajitpratap0/GoSQLX/pkg/sql/ast"
@@ -14,7 +15,15 @@ import (
 // returned it without using it, holders whose call failed, was cancelled or hit a limit, holders whose input was laid
 // out over many lines. Whatever a later caller observes must not depend on it (C08); checks that compare entry
 // points, errors or locations call it between probes so that a leak of pooled state becomes visible to them.
+// a panic raised while playing an earlier holder is itself a finding (C01): it is kept and reported by every run
+var pollutionPanics []string
+
 func pollutePools(variant int) {
+	defer func() {
+		if r := recover(); r != nil && len(pollutionPanics) < 5 {
+			pollutionPanics = append(pollutionPanics, fmt.Sprintf("variant %d: %v", variant%6, r))
+		}
+	}()
 	switch variant % 6 {
 	case 0: // configured, never used
 		p := parser.GetParser()
